@@ -34,6 +34,9 @@ Definition on_case (f : config -> route -> request -> Z -> bool) (c : list Z) : 
 Definition prop_ok := on_case prop_holds.
 Definition pf_access := Eval vm_compute in failing prop_ok cases_access.
 Print pf_access.
+(* the same on request histories (token validity is a function of token, key and clock only) *)
+Definition pf_token_history := Eval vm_compute in failing prop_ok cases_token_history.
+Print pf_token_history.
 (* "Requesting a new token invalidates earlier ones": a state-changing request
    that carries a token older than the newest one issued must be refused *)
 Definition old_token_refused := on_case (fun cfg r q st =>
@@ -45,5 +48,5 @@ Definition hyp_routes_wf := Eval vm_compute in wf_tableb routes.
 Print hyp_routes_wf.
 Definition n_reached := Eval vm_compute in count_true (on_case (fun cfg r q st => obs_reached r st)) cases_access.
 Print n_reached.
-Definition n_undecodable := Eval vm_compute in count_true (fun c => match decode c with None => true | _ => false end) (cases_access ++ cases_csrf_old_token).
+Definition n_undecodable := Eval vm_compute in count_true (fun c => match decode c with None => true | _ => false end) (cases_access ++ cases_csrf_old_token ++ cases_token_history).
 Print n_undecodable.
